@@ -128,11 +128,19 @@ def judge (l : List Tok) : String :=
   else "ok"
 
 
+/-- calls were issued one after the other by ONE goroutine (call ids = submission order): successful sends
+    to one channel carry sequences increasing with the call id -/
+def seqFollowsCallOrder (l : List Tok) : Bool :=
+  let ss := successes l
+  ss.all fun (c, _, ch, _, _, _, _, sq) => ss.all fun (c', _, ch', _, _, _, _, sq') =>
+    if ch = ch' ∧ c < c' then sq < sq' else true
+
 /-- steered, failure-free scenarios: additionally every send reaches the Appender at most once (payloads are
     unique per item there) and every live send succeeds (`mustSucceed` = item indexes of call 1) -/
 def judgeNoFailures (mustSucceed : List Nat) (l : List Tok) : String :=
   let v := judge l
   if v != "ok" then v
+  else if !seqFollowsCallOrder l then "viol:seq-order"
   else
     let ms : List (Nat × Nat × Nat) := l.filterMap fun | .msg _ u m p _ => some (u, m, p) | _ => none
     if !(decide ms.Nodup) then "viol:item-appended-twice"
